@@ -169,12 +169,12 @@ def scenario(ctx, P, si, kind, N, mode, stats_only=False):
     rng = ctx.rng
     name, cats, roots, binary, unary = setup(rng, kind, with_dead=(mode == 'dead'))
     K = len(cats)
-    nmax = {'en': 3 if ctx.quick else 4, 'ja': 4 if ctx.quick else 5}.get(kind, 4 if ctx.quick else 5)
     nbest = rng.choice([1, 2, 3])
+    nmax = 5 if (kind == 'ja' or nbest == 1) and not (kind == 'en' and ctx.quick) else 4     # n-best keeps every derivation in the chart
     pen8 = rng.choice([0, 1, 2])
-    pruning = rng.choice([3, 4]) if kind == 'en' else rng.choice([2, 3, 50, 50])
+    pruning = rng.choice([4, 6, 16]) if kind == 'en' else rng.choice([3, 50, 50])
     use_beta = rng.random() < 0.3
-    theta_odd = rng.choice([15, 31, 63])
+    theta_odd = rng.choice([31, 63, 95])
     kw = dict(unary_penalty=pen8 / 8.0, beta=math.exp(-theta_odd / 16.0), use_beta=use_beta, pruning_size=pruning, nbest=nbest)
     ties = rng.random() < 0.25
     if mode == 'maxlen':
@@ -271,14 +271,14 @@ def scenario(ctx, P, si, kind, N, mode, stats_only=False):
     # ---- (b) schedules: rotations, permutations, subsets; Pool whenever the batch exceeds max_chunk_size
     sched = []
     if N >= 4:
-        for _ in range(2 if ctx.quick else 4):
+        for _ in range(3 if ctx.quick else 4):
             r = rng.randrange(N)
             sched.append(('rotation', list(range(r, N)) + list(range(r))))
-        for _ in range(1 if ctx.quick else 3):
+        for _ in range(2 if ctx.quick else 3):
             p = list(range(N))
             rng.shuffle(p)
             sched.append(('permutation', p))
-        for _ in range(1 if ctx.quick else 3):
+        for _ in range(2 if ctx.quick else 3):
             p = rng.sample(range(N), rng.randint(4, N))
             sched.append(('subset', p))
         if mode == 'slowfirst':
@@ -294,7 +294,7 @@ def scenario(ctx, P, si, kind, N, mode, stats_only=False):
             ctx.count(f'pool:processes={procs}')
             ctx.count(f'pool:chunks={len(list(P._chunks(list(idx), procs)))}')
         if mode == 'slowfirst' and forks:
-            _SLOW[name] = (set(cats), 0.004)      # every rule call on lexical categories naps: the first chunk finishes last
+            _SLOW[name] = (set(cats), 0.0015)      # every rule call on lexical categories naps: the first chunk finishes last
         try:
             res = guarded(f'{what} processes={procs} max_chunk_size={lim}', idx, kw_)
         finally:
@@ -520,10 +520,11 @@ def run(ctx):
         rng = ctx.rng
         if ctx.quick:
             plan = [('syn', 45, 'normal'), ('ja', 30, 'normal'), ('en', 8, 'normal'), ('syn', 24, 'dead'), ('ja', 20, 'maxlen'), ('syn', 20, 'maxstep'),
-                    ('syn', 12, 'slowfirst'), ('syn', 1, 'normal'), ('ja', 3, 'maxstep')]
+                    ('syn', 12, 'slowfirst'), ('syn', 1, 'normal'), ('ja', 3, 'maxstep'), ('en', 14, 'normal'), ('en', 6, 'maxlen'), ('ja', 45, 'normal'),
+                    ('syn', 45, 'maxlen'), ('ja', 12, 'slowfirst'), ('syn', 30, 'normal'), ('en', 5, 'maxstep'), ('syn', 2, 'normal')] * 2
         else:
             plan = []
-            for k in range(70):
+            for k in range(500):
                 kind = rng.choice(['syn', 'syn', 'ja', 'ja', 'en'])
                 mode = rng.choice(['normal', 'normal', 'normal', 'maxlen', 'maxstep', 'dead' if kind == 'syn' else 'normal', 'slowfirst' if kind != 'en' else 'normal'])
                 N = rng.choice([1, 2, 3, 5, 8, 13, 21, 30, 45]) if kind != 'en' else rng.choice([1, 2, 4, 8, 14, 22])
